@@ -117,6 +117,9 @@ def _expected(quiet, verbosity, flags):
     return (not quiet) and verbosity >= _min_level(flags)
 
 
+FLAGS_SECOND_POSITIONAL = {"write", "write_line", "write_raw", "write_line_raw", "error", "error_line", "error_raw", "error_line_raw"}
+
+
 def bounded(ctx):
     import inspect
     from clikit.api.io import IO, Output
@@ -196,7 +199,12 @@ def bounded(ctx):
                             if m == "_pop_stream_content_until_current_section":
                                 args = [1]
                             if has_flags:
-                                kwargs["flags"] = flags
+                                # every text-carrying write method takes the flag word as its SECOND parameter (the signature
+                                # on the reference tree): callers pass it by position as well as by keyword
+                                if order == "qv" and text_param and m in FLAGS_SECOND_POSITIONAL:
+                                    args.append(flags)
+                                else:
+                                    kwargs["flags"] = flags
                             key = [kind, ansi, m, verbosity, quiet, flags, order]
                             try:
                                 getattr(obj, m)(*args, **kwargs)
